@@ -65,7 +65,7 @@ void harness(void) {
 	static char ctx_mem[8];
 	KSI_TlvTemplate tmpl[ENG_T + 1];
 	size_t n = nondet_size(), k, j;
-	int res, acc;
+	int res, acc, why;
 	__CPROVER_assume(1 <= n && n <= ENG_T);                                   /* the stated bound */
 	memset(tmpl, 0, sizeof(tmpl));
 	for (k = 0; k < ENG_T; k++) {
@@ -99,13 +99,23 @@ void harness(void) {
 		spec_schema_init(&r, g_schema, n);
 		for (k = 0; k < ENG_S; k++) if (k < g_stream_len) spec_schema_step(&r, g_stream[k].tag, g_stream[k].isNonCritical, g_val_res[k] == KSI_OK);
 		acc = spec_schema_accepts(&r);
+		why = spec_schema_verdict(&r);
 
 		res = extractGenerator((KSI_CTX *)ctx_mem, &g_payload, &g_stream_len, tmpl, gen_stub, (struct tlv_track_s[0xf]){{0}}, 0, 0xf);
 
-		__CPROVER_assert(IMPLIES(res == KSI_OK, acc), "engine: accepted => the structure satisfies the schema");
+		/* accepted => the structure satisfies the schema; one obligation per kind of violation (reason of the FIRST violation) */
+		__CPROVER_assert(IMPLIES(res == KSI_OK, why != SPEC_SCH_REJ_UNKNOWN_CRITICAL), "engine: accepted => no unknown critical element");
+		__CPROVER_assert(IMPLIES(res == KSI_OK, why != SPEC_SCH_REJ_REPEATED), "engine: accepted => no single-valued element repeated");
+		__CPROVER_assert(IMPLIES(res == KSI_OK, why != SPEC_SCH_REJ_EXCLUSIVE), "engine: accepted => mutually exclusive alternatives not combined");
+		__CPROVER_assert(IMPLIES(res == KSI_OK, why != SPEC_SCH_REJ_ORDER), "engine: accepted => fixed order respected");
+		__CPROVER_assert(IMPLIES(res == KSI_OK, why != SPEC_SCH_REJ_FIRST), "engine: accepted => FIRST element precedes every known element");
+		__CPROVER_assert(IMPLIES(res == KSI_OK, why != SPEC_SCH_REJ_LAST), "engine: accepted => no known element after the LAST element");
+		__CPROVER_assert(IMPLIES(res == KSI_OK, why != SPEC_SCH_REJ_VALUE), "engine: accepted => every known element's value parsed");
+		__CPROVER_assert(IMPLIES(res == KSI_OK, why != SPEC_SCH_REJ_MANDATORY), "engine: accepted => mandatory elements present");
+		__CPROVER_assert(IMPLIES(res == KSI_OK, why != SPEC_SCH_REJ_GROUP), "engine: accepted => at-least-one groups non-empty");
 		__CPROVER_assert(IMPLIES(acc, res == KSI_OK), "engine: the structure satisfies the schema => accepted");
 		__CPROVER_assert(res == KSI_OK || res == KSI_INVALID_FORMAT, "engine: rejection is INVALID_FORMAT");
-		if (res == KSI_OK) {
+		if (res == KSI_OK && acc) {   /* field values are compared when both sides accept; a disagreement on acceptance is the obligation above */
 			__CPROVER_assert(g_gen_pos == g_stream_len, "engine: the whole stream was consumed");
 			for (j = 0; j < ENG_T; j++) if (j < n) {
 				total += r.count[j];
@@ -116,9 +126,8 @@ void harness(void) {
 			__CPROVER_assert(g_destruct_calls == 0, "engine: no parsed value destroyed on success");
 			REACH("accepted");
 			if (g_stream_len == ENG_S && n == ENG_T) REACH("accepted full stream, full schema");
-		} else {
-			REACH("rejected");
 		}
+		if (res != KSI_OK) REACH("rejected");
 		if (res == KSI_OK && g_from_calls < g_stream_len) REACH("accepted with a skipped unknown non-critical element");
 	}
 }
